@@ -141,7 +141,16 @@ func populate(rng *simrt.Rng, md protoreflect.MessageDescriptor, msg protoreflec
 	case "google.protobuf.Any":
 		inner := catByName[smallAnyTypes[rng.Intn(2)]]
 		im := inner.Type.New()
-		populate(rng, inner.Desc, im, 3)
+		if anyChain > 1 {
+			// a chain of nested anys: the codec re-enters itself once per level
+			anyChain--
+			inner = catByName["test.schema.v1.FullSchema"]
+			im = inner.Type.New()
+			im.Set(inner.Desc.Fields().ByName("s_string"), protoreflect.ValueOfString(words[rng.Intn(len(words))]))
+			populate(rng, inner.Desc.Fields().ByName("pbany").Message(), im.Mutable(inner.Desc.Fields().ByName("pbany")).Message(), 3)
+		} else {
+			populate(rng, inner.Desc, im, 3)
+		}
 		b, _ := proto.MarshalOptions{Deterministic: true}.Marshal(im.Interface())
 		msg.Set(md.Fields().ByName("type_url"), protoreflect.ValueOfString("type.googleapis.com/"+inner.Name))
 		msg.Set(md.Fields().ByName("value"), protoreflect.ValueOfBytes(b))
@@ -272,9 +281,22 @@ func scalarValue(rng *simrt.Rng, fd protoreflect.FieldDescriptor) protoreflect.V
 	panic("unhandled kind " + fd.Kind().String())
 }
 
+// anyChain > 1 makes the next google.protobuf.Any that is populated a chain of that many nested anys
+// (only used from the single goroutine that prepares workloads).
+var anyChain int
+
 func newPopulated(ti *TypeInfo, seed uint64) protoreflect.Message {
 	m := ti.Type.New()
-	populate(simrt.NewRng(seed), ti.Desc, m, 0)
+	rng := simrt.NewRng(seed)
+	anyChain = 0
+	if fd := ti.Desc.Fields().ByName("pbany"); fd != nil && fd.Message() != nil && fd.Message().FullName() == "google.protobuf.Any" && seed%4 == 0 {
+		anyChain = 2 + int(seed>>8)%3 // 2..4 levels
+		populate(rng, fd.Message(), m.Mutable(fd).Message(), 1)
+		anyChain = 0
+		m.Set(ti.Desc.Fields().ByName("s_string"), protoreflect.ValueOfString("chain"))
+		return m
+	}
+	populate(rng, ti.Desc, m, 0)
 	return m
 }
 
@@ -333,6 +355,10 @@ func newEnv(kind string) *Env {
 	switch kind {
 	case "proto_to_any":
 		e.codec = j5codec.NewCodec(j5codec.WithProtoToAny())
+	case "resolver":
+		e.codec = j5codec.NewCodec(j5codec.WithResolver(plainResolver{}))
+	case "resolver_proto_to_any":
+		e.codec = j5codec.NewCodec(j5codec.WithResolver(plainResolver{}), j5codec.WithProtoToAny())
 	case "global":
 		// the package-level default, re-created so that every run starts cold
 		codec.Global = codec.NewCodec()
@@ -348,6 +374,13 @@ func newEnv(kind string) *Env {
 		e.codec = j5codec.NewCodec()
 	}
 	return e
+}
+
+// plainResolver is a stateless custom resolver (what a caller passes to WithResolver).
+type plainResolver struct{}
+
+func (plainResolver) FindMessageByName(name protoreflect.FullName) (protoreflect.MessageType, error) {
+	return protoregistry.GlobalTypes.FindMessageByName(name)
 }
 
 type Outcome struct {
@@ -695,7 +728,7 @@ func trimStack(b []byte) string {
 
 // ---------------------------------------------------------------- workload generation
 
-var codecKinds = []string{"new", "new", "new", "proto_to_any", "global", "reflector", "shared_cache"}
+var codecKinds = []string{"new", "new", "new", "proto_to_any", "global", "reflector", "shared_cache", "resolver", "resolver_proto_to_any"}
 var opKinds = []string{"encode", "encode", "encode", "decode", "decode", "query", "encode_any", "decode_any", "walk", "schema"}
 
 func genWorkload(seed uint64, deep bool) *Workload {
@@ -707,6 +740,9 @@ func genWorkload(seed uint64, deep bool) *Workload {
 	switch {
 	case shape < 0.30: // everyone hits the same type first
 		pool = []*TypeInfo{goodTypes[rng.Intn(len(goodTypes))]}
+		if rng.Bool(0.25) {
+			pool = []*TypeInfo{catByName["test.schema.v1.FullSchema"]} // any chains, flattening, every oneof flavour
+		}
 	case shape < 0.65: // one package: shared sub-schemas, mutual references
 		pk := byPkg[pkgNames[rng.Intn(len(pkgNames))]]
 		n := 2 + rng.Intn(3)
@@ -721,6 +757,9 @@ func genWorkload(seed uint64, deep bool) *Workload {
 	}
 	if len(badTypes) > 0 && rng.Bool(0.10) {
 		pool = append(pool, badTypes[rng.Intn(len(badTypes))]) // failing first use
+		if rng.Bool(0.5) {
+			pool = append(pool, badTypes[rng.Intn(len(badTypes))]) // and a second failing type, possibly sharing the nested culprit
+		}
 		if rng.Bool(0.7) {
 			// and successful users of the sub-schemas the failed build leaves behind
 			for _, n := range []string{"test.zzbad.v1.Good", "test.zzbad.v1.Mid", "test.zzbad.v1.Leaf"} {
